@@ -277,7 +277,7 @@ def shard(ctx, n):
             classes.append("instrumented")
         for f in ("loop", "zero_trip", "if", "else", "ifexpr", "fail", "switch", "restart", "raise", "yield", "array",
                   "matmul", "self_update", "multi_result", "zero_result", "nested_call", "multi_phase", "uvec_move",
-                  "zero_arg_call"):
+                  "zero_arg_call", "triangular", "recall", "kw_reverse", "loop2"):
             if f in feats:
                 classes.append("has_" + f)
         if info.get("truncated"):
